@@ -73,7 +73,11 @@ func judge(h []histRec, storedFor map[string]map[int]bool) (string, string, int)
 			}
 		}
 	}
-	res := porcupine.CheckOperationsTimeout(registerModel, ops, 60*time.Second)
+	budget := 12 * time.Second
+	if stats.Tier() == "thorough" {
+		budget = 90 * time.Second
+	}
+	res := porcupine.CheckOperationsTimeout(registerModel, ops, budget)
 	if res == porcupine.Illegal {
 		sort.Slice(ops, func(i, j int) bool { return ops[i].Call < ops[j].Call })
 		return "C14:free-running:not-linearizable", "history is not linearizable as a per-URL register: " + describe(ops), overlaps
@@ -127,7 +131,7 @@ func TestC14_FreeRunningGoroutines(t *testing.T) {
 	for round := 0; round < rounds; round++ {
 		actors := []int{4, 8, 16, 6}[(round+shard)%4]
 		nURLs := 1 + (round+shard)%3
-		nOps := 36
+		nOps := 288 / actors // keeps the history small enough for the linearizability search
 		root, cleanup := newRoot()
 		cache, err := crl.NewFileCache(root)
 		if err != nil {
